@@ -573,6 +573,35 @@ fn rand_positions(rng: &mut Rng, n: usize) -> Vec<(u32, u32)> {
     v
 }
 
+/// a dense h x w block of non-empty cells from which one inner cell was moved out to the right of its row, while
+/// `<dimension>` still names the block (same first and last cell, same cell count as the block's area): a stale
+/// dimension tied to the data. Sometimes nothing is moved and the dimension is simply right.
+fn dense_displaced(rng: &mut Rng, sh: &mut XlsxSheet) {
+    let h = rng.range(2, 6) as u32;
+    let w = rng.range(2, 6) as u32;
+    let r0 = *rng.pick(&[0u32, 0, 3, 1000, 1_048_570]);
+    let c0 = *rng.pick(&[0u32, 0, 2, 26, 16_370]);
+    for i in 0..h {
+        for j in 0..w {
+            let v = match rng.below(3) {
+                0 => XVal::Num(format!("{}", i * 10 + j)),
+                1 => XVal::InlineStr(format!("r{i}c{j}")),
+                _ => XVal::Bool((i + j) % 2 == 0),
+            };
+            sh.set(r0 + i, c0 + j, XCell::new(v));
+        }
+    }
+    if rng.chance(4, 5) {
+        // any cell but those of the last row and the very first one: first and last cell stay what they were
+        let i = rng.below(h as u64 - 1) as u32;
+        let j = if i == 0 { rng.range(1, w as u64 - 1) as u32 } else { rng.below(w as u64) as u32 };
+        if let Some(c) = sh.cells.remove(&(r0 + i, c0 + j)) {
+            sh.set(r0 + i, c0 + w + rng.below(4) as u32, c);
+        }
+    }
+    sh.dimension = Some(((r0, c0), (r0 + h - 1, c0 + w - 1)));
+}
+
 fn rand_book(rng: &mut Rng) -> XlsxBook {
     let mut book = XlsxBook::new();
     book.num_fmts = custom_fmts();
@@ -599,8 +628,12 @@ fn rand_book(rng: &mut Rng) -> XlsxBook {
             8..=15 => rng.range(6, 40),
             _ => rng.range(41, 400),
         } as usize;
-        for p in rand_positions(rng, cnt) {
-            sh.set(p.0, p.1, rand_cell(rng, nxf as u32));
+        if rng.chance(1, 10) {
+            dense_displaced(rng, &mut sh);
+        } else {
+            for p in rand_positions(rng, cnt) {
+                sh.set(p.0, p.1, rand_cell(rng, nxf as u32));
+            }
         }
         book.sheets.push(sh);
     }
@@ -716,9 +749,28 @@ fn check_file(
     };
     for (si, sh) in book.sheets.iter().enumerate() {
         let (bbox, cells) = oracle_sheet(book, sh);
+        let expect_txt = format!("range {} cells {}", show_rect(bbox), cells.len());
+        // ---- guard (D37): the positions the cell reader returns must span what the oracle says before the dense
+        // range is built; a reader that puts a cell far outside would otherwise abort the process on allocation
+        let span = guarded(|| -> Option<xlsxw::Rect> {
+            let mut rd = wb.worksheet_cells_reader(&sh.name).ok()?;
+            let mut pos = vec![];
+            while let Ok(Some(c)) = rd.next_cell() {
+                if *c.get_value() != DataRef::Empty {
+                    pos.push(c.get_position());
+                }
+            }
+            xlsxw::bbox(pos.into_iter())
+        });
+        if let Ok(Some(((a, b), (c, d)))) = span {
+            let area = (c as u64 - a as u64 + 1) * (d as u64 - b as u64 + 1);
+            if area > (1 << 21) && Some(((a, b), (c, d))) != bbox {
+                fails.push(Fail { kind: "impl_vs_spec", sig: "range-bounds".into(), imp: format!("cells reader spans {}", show_rect(Some(((a, b), (c, d))))), model: String::new(), expect: expect_txt.clone() });
+                continue;
+            }
+        }
         // ---- impl vs oracle: worksheet_range
         let r = guarded(|| wb.worksheet_range(&sh.name));
-        let expect_txt = format!("range {} cells {}", show_rect(bbox), cells.len());
         match r {
             Err(p) => fails.push(Fail { kind: "impl_vs_spec", sig: "range:panic".into(), imp: p, model: String::new(), expect: expect_txt.clone() }),
             Ok(Err(e)) => fails.push(Fail { kind: "impl_vs_spec", sig: format!("range:{}", err_class(&e)), imp: format!("{e}"), model: String::new(), expect: expect_txt.clone() }),
@@ -952,6 +1004,7 @@ fn reset_knob(l: &mut Layout, k: usize) {
         }
         _ => {
             l.pct_styles_noise = 0;
+            l.pct_spans = 0;
             l.pct_attr_shuffle = 0;
             l.pct_attr_extra = 0;
             l.pct_t_n_styled = 0;
@@ -1149,6 +1202,7 @@ fn file_case(seed: u64, rep: &mut Report, drv: &mut Driver) {
     rep.count(&format!("knob:row-style:{}", layout.pct_row_style));
     rep.count(&format!("knob:rel-decl:{:?}", layout.rel_decl));
     rep.count(&format!("knob:rels-noise:{}", layout.pct_rels_noise));
+    rep.count(&format!("knob:spans:{}", layout.pct_spans));
     for sh in &book.sheets {
         for c in sh.cells.values() {
             rep.count(match c.value {
@@ -1301,6 +1355,34 @@ fn corpus_case(name: &str) -> Option<(XlsxBook, Layout)> {
             l.pct_rels_noise = 100;
             l.seed = 5;
         }
+        // seeded change C01-m9: a stale <dimension> with the corners and the cell count of the data (A1:B2 for A1 C1 A2 B2)
+        "dense-stale-dimension" => {
+            sh.set(0, 0, XCell::num("1"));
+            sh.set(0, 2, XCell::num("2"));
+            sh.set(1, 0, XCell::num("3"));
+            sh.set(1, 1, XCell::num("4"));
+            sh.dimension = Some(((0, 0), (1, 1)));
+        }
+        // the same through the layout: dimension from the first to the last written cell
+        "dense-first-last" => {
+            sh.set(4, 1, XCell::num("1"));
+            sh.set(4, 5, XCell::inline("moved"));
+            sh.set(5, 1, XCell::num("3"));
+            sh.set(5, 2, XCell::num("4"));
+            l.dimension = xlsxw::DimMode::FirstLast;
+        }
+        // seeded change C01-m11: `spans` is a hint; a cell without r sits at "previous + 1" (column A first)
+        "spans-hint" => {
+            for r in 0..8u32 {
+                sh.set(r * 2, 0, XCell::num("1"));
+                sh.set(r * 2, 1, XCell::inline("b"));
+                sh.set(r * 2, 2, XCell::num("3"));
+            }
+            l.pct_spans = 100;
+            l.pct_cell_ref = 0;
+            l.pct_row_ref = 0;
+            l.seed = 11;
+        }
         // the structure around the format table is not the format table
         "styles-noise" => {
             book.num_fmts = custom_fmts();
@@ -1329,7 +1411,7 @@ fn corpus_case(name: &str) -> Option<(XlsxBook, Layout)> {
 
 const CORPUS: &[&str] = &[
     "d20-empty-si", "d21-prefixed-rich", "d21-prefixed-rich-inline", "d22-prefixed-workbookpr", "d23-rel-prefix", "implicit-refs", "corners", "blank-only",
-    "upper-parts", "xf-without-numfmtid", "styles-noise", "row-style-date", "rel-decl-sheets", "rel-decl-sheet", "rel-decl-split", "rel-prefix-named-id", "container-all", "raw:row-cursor-overflow", "raw:col-cursor-overflow", "raw:sst-index-out-of-range", "raw:reversed-dimension", "raw:overlong-ref",
+    "upper-parts", "xf-without-numfmtid", "styles-noise", "row-style-date", "rel-decl-sheets", "rel-decl-sheet", "rel-decl-split", "rel-prefix-named-id", "container-all", "dense-stale-dimension", "dense-first-last", "spans-hint", "raw:row-cursor-overflow", "raw:col-cursor-overflow", "raw:sst-index-out-of-range", "raw:reversed-dimension", "raw:overlong-ref",
 ];
 
 /// hand-written worksheet parts (events) for the malformed-input regressions
